@@ -86,9 +86,27 @@ func init() {
 			switch {
 			case strings.HasSuffix(d, ".Credit.Amount"):
 				okCredit = true
-			case strings.Contains(d, "NewIntFromUint64") && strings.Contains(d, limit+" * ") || strings.Contains(d, " * "+limit+")"):
-				if in, ok := lf.(ssa.Instruction); ok && ir.HasFact(ir.GuardFacts(in), "call(cosmossdk.io/math.Int.GT)(call(cosmossdk.io/math.Int.Quo)(", ".Credit.Amount,") {
+			case strings.Contains(d, limit) && strings.Contains(d, "GetSubTrackedCuInfo)(") && strings.Contains(d, "#1"):
+				// LIMIT·totalCu in either arithmetic; taken only past a greater-than test that involves the credit
+				if in, ok := lf.(ssa.Instruction); ok && ir.HasFact(ir.GuardFacts(in), "call(cosmossdk.io/math.Int.GT)(", ".Credit.Amount") {
 					okCap = true
+				} else {
+					// the value may be computed before the test: look at the edge that selects it
+					for _, g := range ir.Guards(share) {
+						_ = g
+					}
+					if phi, isPhi := share.Call.Args[2].(*ssa.Phi); isPhi {
+						for i, e := range phi.Edges {
+							if e != lf {
+								continue
+							}
+							for _, g := range guardsOfEdge(phi.Block().Preds[i], phi.Block()) {
+								if strings.Contains(g.Fact, "call(cosmossdk.io/math.Int.GT)(") && strings.Contains(g.Fact, ".Credit.Amount") && g.Edge {
+									okCap = true
+								}
+							}
+						}
+					}
 				}
 			default:
 				c.Fail("C11b/RewardAndResetCuTracker/amount-is-credit-or-cap", c.P.InstrPos(share), "the amount split can be "+trunc(d, 160))
@@ -194,6 +212,19 @@ func init() {
 
 		c.Rule("C11e nothing tracked: under len(list)==0 ∨ totalCu==0 the timer's credit is handed to returnCreditToSub and the function returns without any payout; returnCreditToSub adds it to the latest subscription's credit, or sends exactly that amount to the validators distribution pool when the subscription is gone")
 		rets := c.CallsIn(rr, rcs, false)
+		// inside the per-provider loop the share is the only outflow: credit handed back there is paid twice
+		var outside []Site
+		for _, s := range rets {
+			if innermostLoop(rr, s.Instr.Block()) != nil {
+				c.Fail("C11c/RewardAndResetCuTracker/no-second-outflow-per-share", c.P.InstrPos(s.Instr), "credit is handed back ("+trunc(ir.Desc(ir.CallOf(s.Instr).Args[3]), 60)+") inside the payout loop, on top of the participation and provider payment taken from the same share: more than the month's credit can leave")
+			} else {
+				outside = append(outside, s)
+			}
+		}
+		if len(rets) > 0 && len(outside) == len(rets) {
+			c.OK("C11c/RewardAndResetCuTracker/no-second-outflow-per-share", c.P.Pos(rr.Pos()), "no credit refund inside the payout loop")
+		}
+		rets = outside
 		if len(rets) != 1 {
 			c.Undecided("C11e: expected one returnCreditToSub call in RewardAndResetCuTracker, found %d", len(rets))
 		} else {
